@@ -104,7 +104,12 @@ func (w *RaceWatcher) Check(res *Result) {
 	for _, rep := range w.Delta() {
 		sig, inLib := w.Signature(rep)
 		if !inLib {
-			res.Harness = "race report outside the code under test: " + firstLines(rep, 30)
+			// neither stack touches the code under test: harness/std only, cannot
+			// be a violation of the property; counted, never reported
+			res.Count("race_report_outside_library", 1)
+			if os.Getenv("SIM_RACE_DEBUG") != "" {
+				fmt.Println("RACE-OUTSIDE", firstLines(rep, 40))
+			}
 			continue
 		}
 		res.Violations = append(res.Violations, Violation{Property: "C10", Rule: "race", Sig: sig, Msg: fmt.Sprintf("data race: %s\n%s", sig, firstLines(rep, 40))})
